@@ -191,8 +191,11 @@ bool wall_ref(const Params& P, const Pt& p, std::vector<Expect>& out) {
   RJ fw = g * powc((1 + cw36) / (g6 + cw36), Q(1) / 6);
   Q cw1 = P("c_b1") / (kap * kap) + (1 + P("c_b2")) / P("sigma");
   RJ nd = nu / d;
+  if (getenv("E1_DEBUG_WALL")) { auto pr = [](const char* n, const RJ& a) { fprintf(stderr, "%s v=%s mv=%s | ", n, q2s(a.v, 6).c_str(), q2s(a.mv, 6).c_str()); };
+    pr("utau", utau); pr("yp", yp); pr("ueqp", ueqp); pr("U", U); pr("T", T); pr("rho", rho); pr("nu", nu); pr("chi", chi); pr("fv1", fv1); pr("fv2", fv2); pr("Om", Om); pr("Sm0", Sm0); pr("Ssa", Ssa); pr("r", r); pr("g", g); pr("fw", fw); fprintf(stderr, "\n"); }
   Fans o = fans_operator(F, false, val(Ssa), val(cw1 * fw * rho * nd * nd));
   if (!finite(o.e) || !finite(o.m[0]) || !finite(o.m[1]) || !finite(o.nu)) { e1_count("inadmissible: wall#13"); return false; }
+  if (!p.special) e1_count(om.v > 0 ? "vorticity du/dy - dv/dx > 0" : "vorticity du/dy - dv/dx < 0");
   const char* s = "SS";
   out.push_back(mk("C05", "exact_u", s, p, V_XY, val(U)));
   out.push_back(mk("C05", "exact_v", s, p, V_XY, val(V)));
@@ -221,14 +224,14 @@ struct Reg {
         if (tier) for (long k : t) pts.push_back(Pt(dy(k), 0, 0, 0)); else for (long k : q) pts.push_back(Pt(dy(k), 0, 0, 0));
         return pts;
       };
-      s.reference = rans_ref; s.max_dev_quick = 2; s.max_dev_thorough = 3;
+      s.reference = rans_ref; s.max_dev_quick = 2; s.max_dev_thorough = 3; s.pointwise_admissibility = true;
       e1_systems().push_back(s);
     }
     {
       System s; s.name = "fans_sa_transient_free_shear"; s.prop = "C05"; s.dim = 2;
       s.base = [](Params& P) { P.m["p_0"] = 40; P.m["mu"] = dy(1100); P.m["R"] = dy(1741); P.m["c_v1"] = 12; P.m["Gamma"] = dy(1434); };
       s.points = [](int tier) { return grid({0, 1, 3}, tier ? 3 : 2, GENERIC_VALS); };
-      s.reference = fs_ref; s.max_dev_quick = 1; s.max_dev_thorough = 2;
+      s.reference = fs_ref; s.max_dev_quick = 1; s.max_dev_thorough = 2; s.pointwise_admissibility = true;
       e1_systems().push_back(s);
     }
     {
@@ -237,17 +240,20 @@ struct Reg {
       // base = library defaults perturbed by distinct factors, deviations are relative
       s.base_from_default = true;
       s.alphabet = [](const std::string& n, LD b, LD d) {
-        std::vector<LD> v{d, dyround(b * 0.875L), dyround(b * 1.25L)};
+        std::vector<LD> v{d, dyround(b * 0.875L), dyround(b * 1.25L), -b, dyround(b * 3)};  // sign changes and large moves: admissibility is decided point by point
+        if (n == "eta_v") { v.push_back(-4 * b); v.push_back(-16 * b); }  // wall-normal velocity towards the wall: vorticity changes sign in the outer region
         if (n == "c_v2" || n == "c_v3") { v.push_back(-b); v.push_back(-4 * b); v.push_back(-16 * b); v.push_back(4 * b); }  // drive the S~ switch to its other branch
         return v;
       };
       s.points = [](int tier) {
-        std::vector<Pt> pts; const long xs[] = {717, 1331, 2150}, ys[] = {11, 51, 205, 410};
-        int nx = tier ? 3 : 2, ny = tier ? 4 : 3;
+        // x along the plate, y from the viscous sublayer to well outside the boundary layer (y > x included: outer points are
+        // admissible only while nu_sa = kappa u_tau y - alpha y^2 > 0, decided per (assignment, point))
+        std::vector<Pt> pts; const long xs[] = {410, 717, 1331, 2150}, ys[] = {11, 51, 205, 410, 819, 1229};
+        int nx = tier ? 4 : 3, ny = tier ? 6 : 5;
         for (int i = 0; i < nx; i++) for (int j = 0; j < ny; j++) pts.push_back(Pt(dy(xs[i]), dy(ys[j]), 0, 0));
         return pts;
       };
-      s.reference = wall_ref; s.max_dev_quick = 1; s.max_dev_thorough = 2;
+      s.reference = wall_ref; s.max_dev_quick = 1; s.max_dev_thorough = 2; s.pointwise_admissibility = true;
       s.name = "fans_sa_steady_wall_bounded";
       e1_systems().push_back(s);
     }
